@@ -228,6 +228,8 @@ impl BDF {
 
         let mut order = 1usize;
         let mut n_equal_steps = 0usize;
+        // true while the current step is being retried after a failed attempt
+        let mut retrying = false;
         let status;
 
         let mut psi = vec![0.0; n];
@@ -305,6 +307,12 @@ impl BDF {
                 lu_is_current = false;  // Step size changed
             }
             if h_try < hmin && hmin > 0.0 {
+                // A retry that would need a step below min_step cannot succeed: raising the step back to
+                // min_step repeats the attempt that just failed, forever.
+                if retrying {
+                    status = Status::StepSizeTooSmall;
+                    break;
+                }
                 let factor = (hmin / h_try).max(1.0);
                 change_d(&mut d, order, factor, &mut scratch_change);
                 h_try = hmin;
@@ -395,6 +403,7 @@ impl BDF {
                         n_equal_steps = 0;
                         lu_is_current = false;
                         steps.rejected += 1;
+                        retrying = true;
                         continue 'main_loop;
                     }
                 }
@@ -475,6 +484,7 @@ impl BDF {
                 current_h *= 0.5;
                 n_equal_steps = 0;
                 steps.rejected += 1;
+                retrying = true;
                 continue;
             }
 
@@ -507,10 +517,12 @@ impl BDF {
                 current_h *= factor;
                 n_equal_steps = 0;
                 steps.rejected += 1;
+                retrying = true;
                 continue;
             }
 
             steps.accepted += 1;
+            retrying = false;
             n_equal_steps += 1;
             x = x_new;
             y.copy_from_slice(&y_new);
